@@ -294,6 +294,39 @@ class Explorer:
                 return True
         return False
 
+    def accessor_functions(self):
+        """Module-level functions of the package with one required parameter that read an attribute of this group from it
+        (directly, or by naming it in a string: getattr / vars() / __dict__) - other than the loaders themselves."""
+        import ast as _ast
+        out = []
+        names = set(self.reg.names)
+        loaders = {f"{m}.{f}" for m, f in GROUP_INIT.values()}
+        for q, f in self.lw.src.funcs.items():
+            node = f.node
+            if not isinstance(node, _ast.FunctionDef) or q.count(".") != 1 or q in loaders or q.split(".")[1].startswith("init"):
+                continue
+            a = node.args
+            if len(a.args) - len(a.defaults) != 1 or a.vararg or a.kwonlyargs and any(d is None for d in a.kw_defaults):
+                continue
+            p = a.args[0].arg
+            hit = False
+            for n in _ast.walk(node):
+                if isinstance(n, _ast.Attribute) and isinstance(n.value, _ast.Name) and n.value.id == p and n.attr in names:
+                    hit = True
+                if isinstance(n, _ast.Constant) and isinstance(n.value, str) and n.value in names:
+                    hit = True
+            if hit:
+                out.append(q)
+        return sorted(out)
+
+    def call_accessor(self, fq, atom):
+        lw = self.lw
+        try:
+            v = lw.I.call(lw.I.global_name(*fq.split(".", 1)), [atom], {})
+        except SymRaise as e:
+            return ("raises " + e.exc,)
+        return ("value", lw.digest(v))
+
     def canonical(self):
         lw = self.lw
         lw.restore(self.base)
@@ -302,6 +335,23 @@ class Explorer:
         lw.read(first, self.reg.names[0])
         C = {(an, nm): lw.read(a, nm) for an, a in A.items() for nm in self.reg.names}
         self.canon_tables = {}
+        # accessor functions: their canonical results (functions the interpreter cannot follow are left out)
+        self.accessors = []
+        for fq in self.accessor_functions():
+            nun = len(lw.I.uninterpreted)
+            before = lw.state_key([lw.P] + list(getattr(self, "tables", [])))
+            try:
+                for an in ("Fe[56]", "Fe", "H[1]"):
+                    if an in A:
+                        C[("call:" + fq, an)] = self.call_accessor(fq, A[an])
+                pure = len(lw.I.uninterpreted) == nun and lw.state_key([lw.P] + list(getattr(self, "tables", []))) == before
+            except AnalysisError:
+                pure = False
+            if pure:
+                self.accessors.append(fq)
+            else:       # plotting helpers and the like: not followed
+                for k in [k for k in C if k[0] == "call:" + fq]:
+                    del C[k]
         return C
 
     def run(self):
@@ -326,6 +376,10 @@ class Explorer:
                     continue
                 for nm in reg.names:
                     ev.append((f"read {an}.{nm}", "read:" + kinds[an], ("read", an, nm)))
+            for fq in getattr(self, "accessors", []):
+                for an in ("Fe[56]", "Fe", "H[1]"):
+                    if ("call:" + fq, an) in self.C:
+                        ev.append((f"{fq}({an})", "call:" + fq.split(".")[1], ("call", fq, an)))
             ev.append((f"{GROUP_INIT[reg.key][0]}.{GROUP_INIT[reg.key][1]}(elements)", "init_public", ("init", 0)))
             for k, T in enumerate(self.tables):
                 ev.append((f"{GROUP_INIT[reg.key][0]}.{GROUP_INIT[reg.key][1]}(T{k + 1})", "init_private", ("init", k + 1)))
@@ -348,6 +402,9 @@ class Explorer:
                     if what[0] == "read":
                         A = lw.atoms(lw.P)
                         outcome = lw.read(A[what[1]], what[2])
+                    elif what[0] == "call":
+                        A = lw.atoms(lw.P)
+                        outcome = self.call_accessor(what[1], A[what[2]])
                     else:
                         if what[1] > 0 and self.pending():
                             pf = True
@@ -357,8 +414,8 @@ class Explorer:
                     if what[0] != "read":
                         self.failures.append((hk + [kind], labels + [label], f"{label} raises {e.exc}: {e.msg}", "private-first" if pf else None))
                         continue
-                if what[0] == "read":
-                    want = C[(what[1], what[2])]
+                if what[0] in ("read", "call"):
+                    want = C[(what[1], what[2])] if what[0] == "read" else C[("call:" + what[1], what[2])]
                     if outcome != want:
                         self.failures.append((hk + [kind], labels + [label],
                                               f"{label} serves {_short(outcome)} but the canonical order serves {_short(want)}",
@@ -373,15 +430,17 @@ class Explorer:
         # equivalent to checking after a single init on top of any state; done by the rule on demand)
         return self
 
-    def private_serves_canonical(self):
-        """After init(T) on a fresh private table (public already loaded), T's atoms serve the canonical values."""
+    def private_serves_canonical(self, public_first=True):
+        """After init(T) on a fresh private table (public already loaded, or - public_first=False - before the public
+        group was ever touched), T's atoms serve the canonical values."""
         lw, reg = self.lw, self.reg
         out = []
         if not self.tables:
             return out
         lw.restore(self.base)
         A = lw.atoms(lw.P)
-        lw.read(A["Fe"], reg.names[0])
+        if public_first:
+            lw.read(A["Fe"], reg.names[0])
         T = self.tables[0]
         try:
             lw.init_call(reg.key, T)()
